@@ -487,7 +487,8 @@ fn write_pre(file: &mut FSink) -> (r: Result<(u64, u64, u64), ProcessDataError>)
 pub struct BigBedWrite {}
 impl BigBedWrite {
 fn write_pre(
-        file: &mut FSink, autosql: Option<Text>,
+        file: &mut FSink,
+        autosql: Option<Text>,
     ) -> (r: Result<(u64, u64, u64, u64, u16), ProcessDataError>)
     requires
         
